@@ -2650,6 +2650,12 @@ class Mailbox:
                 (time.monotonic() - start_time),
             )
             try:
+                # Nothing to copy from an empty mailbox (a UID set may
+                # well name no message at all).
+                #
+                if not self.msg_keys:
+                    return [], []
+
                 max_msg_key = self.msg_keys[-1]
                 uid_vv, uid_max = self.get_uid_from_msg(max_msg_key)
                 if uid_vv is None or uid_vv != self.uid_vv or uid_max is None:
@@ -3116,6 +3122,14 @@ class Mailbox:
         new_name = new_name[1:] if new_name and new_name[0] == "/" else new_name
         if not mbox_name_is_inside_maildir(new_name):
             raise InvalidMailbox(f"Invalid mailbox name: '{new_name}'")
+
+        # Like CREATE, create the superior mailboxes of the new name if they
+        # do not exist yet (rfc3501 §6.3.5). Otherwise moving the folder
+        # fails in the file system.
+        #
+        new_parent = os.path.dirname(new_name)
+        if new_parent and not server.folder_exists(new_parent):
+            await Mailbox.create(new_parent, server)
 
         # A mailbox can not be moved underneath itself.
         #
